@@ -70,6 +70,9 @@ class Result:
         return {k: (dict(getattr(self, k)) if k == "outcomes" else getattr(self, k)) for k in self.__slots__}
 
 
+_REAL = None
+
+
 def _bind_repo():
     """Import commonroad from the working tree and prove it."""
     if REPO not in sys.path[:1]:
@@ -168,6 +171,8 @@ def main(argv=None):
     os.environ.setdefault("OPENBLAS_NUM_THREADS", "1")
     t0 = time.time()
     real_out, real_err = _silence()
+    global _REAL
+    _REAL = (real_out, real_err)
     impl_file = _bind_repo()
     modname = "mc.checks." + prop.lower()
     mod = importlib.import_module(modname)
